@@ -134,10 +134,40 @@ func c18Dur(ms, code int) time.Duration {
 	case 11:
 		return time.Millisecond + time.Nanosecond
 	}
+	if code >= 12 && code < 12+len(c18Headroom) {
+		// "never" minus a headroom d, d over a scale-free family: every one of
+		// them is far beyond any idle time a case can reach
+		return time.Duration(math.MaxInt64) - c18Headroom[code-12]
+	}
 	return time.Duration(ms) * c18ms
 }
 
-const c18DurCodes = 11
+const c18Day = 24 * time.Hour
+
+var c18Headroom = []time.Duration{
+	time.Nanosecond, time.Microsecond, time.Second, time.Hour, c18Day, 30 * c18Day, 364 * c18Day, 365 * c18Day,
+	365*c18Day + time.Nanosecond, 366 * c18Day, 380 * c18Day, 395 * c18Day, 396 * c18Day, 397 * c18Day, 400 * c18Day,
+	2 * 365 * c18Day, 10 * 365 * c18Day, 100 * 365 * c18Day,
+}
+
+// c18DurCodes: codes 1..11 are fixed magnitudes, 12.. are MaxInt64 - c18Headroom[i]
+var c18DurCodes = 11 + len(c18Headroom)
+
+// c18DrawDurCode: half of the coded durations come from the headroom family.
+func c18DrawDurCode(rt *rapid.T, label string) int {
+	if rapid.Bool().Draw(rt, label+"NearNever") {
+		// uniform over the family (rapid's ranges favour small numbers)
+		n := 0
+		for b := 0; b < 8; b++ {
+			n <<= 1
+			if rapid.Bool().Draw(rt, label+"HeadroomBit") {
+				n |= 1
+			}
+		}
+		return 12 + n%len(c18Headroom)
+	}
+	return rapid.IntRange(1, 11).Draw(rt, label)
+}
 
 // c18Settings of instance m: (size, duration parameter).
 func c18Settings(c c18Case, m int) (int, time.Duration) {
